@@ -7,6 +7,7 @@
 -/
 import Nq.SchedHist
 import Nq.SelPrep
+import Nq.SchedPass
 
 namespace Nq.Spec.SchedHist
 open Nq Nq.Sched Nq.SchedHist
@@ -137,5 +138,27 @@ structure SnapOf (s : HSt) (sn : Nq.SelPrep.Snap) : Prop where
 def midPass (sn : Nq.SelPrep.Snap) : Chan → Bool
   | .loc => (sn.chans.getD 0 {}).passOpen
   | .rem => (sn.chans.getD 1 {}).passOpen
+
+/-! ### histories with passes that are not atomic (`Nq.SchedPass`) -/
+
+/-- the entry `pass_dochan(c)` starts now in the fine-grained state `s`: a process is running, no exit has been
+requested, no pass is open on `c`, and the head of the heap is due -/
+def startedP (s : Nq.SchedPass.PSt) (c : Chan) : Option Elt :=
+  if !s.up || s.exitasap || (s.jobs c).any (·.scanning) then none
+  else (passStart s.h.clock true (s.h.q c)).map (·.1)
+
+/-- when the daemon exits (`fin`) message `i` has no open job on channel `c` -/
+def NoCutAt (i : Nat) (c : Chan) (s : Nq.SchedPass.PSt) : Nq.SchedPass.PStep → Prop
+  | .fin => s.job? c i = none
+  | _ => True
+
+/-- along the history `l` from `s`, whenever the daemon exits (`fin`) message `i` has no open job on channel `c`:
+its pass is never cut short by TERM.  (Needed only for the exit as it was before notes/C15-fix-1.diff.) -/
+def NoCut (persist : Bool) (i : Nat) (c : Chan) : Nq.SchedPass.PSt → List Nq.SchedPass.PStep → Prop
+  | _, [] => True
+  | s, x :: l => NoCutAt i c s x ∧ NoCut persist i c (Nq.SchedPass.pstep persist s x) l
+
+/-- every step of the history is a quiet one (no ALRM, no file appearing from outside) -/
+def allQuiet (l : List Nq.SchedPass.PStep) : Prop := ∀ x ∈ l, x.quiet = true
 
 end Nq.Spec.SchedHist
